@@ -395,3 +395,376 @@ theorem poolStep_goodO (e : Epoch) (O : OwnLog) (p : Pool) (op : PoolOp) (h : Ow
       exact addBlockTail_goodO e O _ b par _ _ hk ht
 
 end AgModel.Pool
+
+/-! ## Part 2: a Votor step logs the event, then only broadcasts -/
+namespace AgModel.Votor
+
+/-- `v'` is reached from `v` by broadcasting only (no event is logged) -/
+def OutExt (v v' : V) : Prop := ∃ xs, v'.log = xs ++ v.log ∧ ∀ x ∈ xs, ∃ o, x = .out o
+
+theorem OutExt.refl (v : V) : OutExt v v := ⟨[], rfl, by simp⟩
+
+theorem OutExt.trans {a b c : V} (h1 : OutExt a b) (h2 : OutExt b c) : OutExt a c := by
+  obtain ⟨xs, e1, q1⟩ := h1
+  obtain ⟨ys, e2, q2⟩ := h2
+  refine ⟨ys ++ xs, by rw [e2, e1]; simp, ?_⟩
+  intro x hx
+  rcases List.mem_append.mp hx with hx | hx
+  · exact q2 x hx
+  · exact q1 x hx
+
+theorem OutExt.upd (v : V) (s : Nat) (f) : OutExt v (v.upd s f) := ⟨[], rfl, by simp⟩
+theorem OutExt.panic (v : V) : OutExt v v.panic := ⟨[], rfl, by simp⟩
+theorem OutExt.emit (v : V) (o : Out) : OutExt v (v.emit o) :=
+  ⟨[.out o], rfl, by intro x hx; simp at hx; exact ⟨o, hx⟩⟩
+
+theorem OutExt.tryFinal (v : V) (slot hash : Nat) : OutExt v (v.tryFinal slot hash) := by
+  unfold V.tryFinal
+  split
+  · exact OutExt.panic v
+  · simp only []
+    split
+    · exact (OutExt.emit v _).trans (OutExt.upd _ _ _)
+    · exact OutExt.refl v
+
+theorem OutExt.tryNotar (v : V) (slot : Nat) (b : BlockInfo) : OutExt v (v.tryNotar slot b).1 := by
+  unfold V.tryNotar
+  split
+  · exact OutExt.panic v
+  · split
+    · exact OutExt.refl v
+    · split
+      · simp only []
+        exact ((OutExt.emit v _).trans (OutExt.upd _ _ _)).trans (OutExt.tryFinal _ _ _)
+      · exact OutExt.refl v
+
+theorem OutExt.skipSlots : ∀ (l : List Nat) (v : V), OutExt v (v.skipSlots l) := by
+  intro l
+  induction l with
+  | nil => intro v; exact OutExt.refl v
+  | cons s rest ih =>
+    intro v
+    unfold V.skipSlots
+    split
+    · exact ih v
+    · exact ((OutExt.upd v s _).trans (OutExt.emit _ _)).trans (ih _)
+
+theorem OutExt.trySkipWindow (v : V) (slot : Nat) : OutExt v (v.trySkipWindow slot) := by
+  unfold V.trySkipWindow
+  split
+  · exact OutExt.panic v
+  · exact OutExt.skipSlots _ v
+
+theorem OutExt.checkPendingLoop : ∀ (l : List Nat) (v : V), OutExt v (v.checkPendingLoop l) := by
+  intro l
+  induction l with
+  | nil => intro v; exact OutExt.refl v
+  | cons s rest ih =>
+    intro v
+    unfold V.checkPendingLoop
+    split
+    · exact (OutExt.tryNotar v s _).trans (ih _)
+    · exact ih v
+
+theorem OutExt.setTimeouts (v : V) (s : Nat) : OutExt v (v.setTimeouts s) := by
+  unfold V.setTimeouts
+  split
+  · exact OutExt.emit v _
+  · exact OutExt.panic v
+
+theorem OutExt.emitAll : ∀ (l : List Out) (v : V), OutExt v (v.emitAll l) := by
+  intro l
+  induction l with
+  | nil => intro v; exact OutExt.refl v
+  | cons o rest ih => intro v; exact (OutExt.emit v o).trans (ih _)
+
+theorem OutExt.raisePrune (v : V) (slot : Nat) : OutExt v ({ v with hfcs := max v.hfcs slot } : V).prune :=
+  ⟨[], rfl, by simp⟩
+
+theorem OutExt.handle (v : V) (e : Event) : OutExt v (v.handle e) := by
+  cases e with
+  | parentReady slot ps ph =>
+    simp only [V.handle]
+    exact ((OutExt.upd v _ _).trans (OutExt.checkPendingLoop _ _)).trans (OutExt.setTimeouts _ _)
+  | safeToNotar slot hash =>
+    simp only [V.handle]
+    exact ((OutExt.emit v _).trans (OutExt.trySkipWindow _ _)).trans (OutExt.upd _ _ _)
+  | safeToSkip slot =>
+    simp only [V.handle]
+    exact ((OutExt.emit v _).trans (OutExt.trySkipWindow _ _)).trans (OutExt.upd _ _ _)
+  | cert kind slot hash =>
+    cases kind with
+    | notar =>
+      simp only [V.handle]
+      exact ((OutExt.upd v _ _).trans (OutExt.tryFinal _ _ _)).trans (OutExt.emit _ _)
+    | final =>
+      simp only [V.handle]
+      exact ((OutExt.setTimeouts v _).trans (OutExt.raisePrune _ slot)).trans (OutExt.emit _ _)
+    | fastFinal =>
+      simp only [V.handle]
+      exact ((OutExt.setTimeouts v _).trans (OutExt.raisePrune _ slot)).trans (OutExt.emit _ _)
+    | skip => exact OutExt.emit _ _
+    | notarFallback => exact OutExt.emit _ _
+  | standstill slot relay => exact OutExt.emitAll _ v
+  | firstShred slot => exact OutExt.upd v _ _
+  | invalidBlock slot => exact OutExt.trySkipWindow v slot
+  | block slot b =>
+    simp only [V.handle]
+    split
+    · exact OutExt.refl v
+    · split
+      · exact (OutExt.tryNotar v slot b).trans (OutExt.checkPendingLoop _ _)
+      · exact (OutExt.tryNotar v slot b).trans (OutExt.upd _ _ _)
+  | timeout slot =>
+    simp only [V.handle]
+    split
+    · exact OutExt.refl v
+    · exact OutExt.trySkipWindow v slot
+  | timeoutCrashed slot =>
+    simp only [V.handle]
+    split
+    · exact OutExt.refl v
+    · exact OutExt.trySkipWindow v slot
+
+/-- **One step of Votor**: nothing (it had panicked), or the event is logged and then only broadcasts follow. -/
+theorem step_log (v : V) (e : Event) :
+    step v e = v ∨ ∃ xs, (step v e).log = xs ++ .ev e :: v.log ∧ ∀ x ∈ xs, ∃ o, x = .out o := by
+  unfold AgModel.Votor.step
+  split
+  · exact Or.inl rfl
+  · right
+    simp only []
+    split
+    · exact ⟨[], rfl, by simp⟩
+    · obtain ⟨xs, h1, h2⟩ := OutExt.handle (v.logEv e) e
+      exact ⟨xs, h1, h2⟩
+
+theorem Hist.mono {P P' : Item → List Item → Prop} (hpp : ∀ x past, P x past → P' x past) :
+    ∀ {l : List Item}, Hist P l → Hist P' l := by
+  intro l
+  induction l with
+  | nil => intro _; trivial
+  | cons x t ih => intro h; exact ⟨hpp _ _ h.1, ih h.2⟩
+
+/-- prepending broadcasts keeps a history predicate that is trivial on broadcasts -/
+theorem Hist.prepend_outs {P : Item → List Item → Prop} (hout : ∀ o past, P (.out o) past) :
+    ∀ (xs : List Item) {l : List Item}, (∀ x ∈ xs, ∃ o, x = .out o) → Hist P l → Hist P (xs ++ l) := by
+  intro xs
+  induction xs with
+  | nil => intro l _ h; exact h
+  | cons x t ih =>
+    intro l hx h
+    obtain ⟨o, rfl⟩ := hx x (by simp)
+    exact ⟨hout o _, ih (fun y hy => hx y (by simp [hy])) h⟩
+
+end AgModel.Votor
+
+/-! ## Part 3: the composed node -/
+namespace AgModel.NodePanic
+open AgModel AgModel.Node
+
+/-- the own initial votes in Votor's log -/
+def logOwn (L : List Votor.Item) : Pool.OwnLog where
+  skip := fun s => .out (.skip s) ∈ L
+  notar := fun s h => ∃ ps ph, .out (.notar s h ps ph) ∈ L
+
+theorem logOwn_mono {L L' : List Votor.Item} (h : ∀ x ∈ L, x ∈ L') :
+    (∀ s, (logOwn L).skip s → (logOwn L').skip s) ∧ (∀ s x, (logOwn L).notar s x → (logOwn L').notar s x) :=
+  ⟨fun _ a => h _ a, fun _ _ ⟨ps, ph, a⟩ => ⟨ps, ph, h _ a⟩⟩
+
+/-- history predicate: every safe-to-notar / safe-to-skip event Votor received was backed, at that moment, by an own
+    initial vote already in the log (safe-to-notar: a skip vote or a notar vote for another block; safe-to-skip: a notar
+    vote) -/
+def SafeBacked : Votor.Item → List Votor.Item → Prop
+  | .ev (.safeToNotar s h), past => Pool.GoodO (logOwn past) (.s2n s h)
+  | .ev (.safeToSkip s), past => Pool.GoodO (logOwn past) (.s2s s)
+  | _, _ => True
+
+/-- the broadcast `o` of Votor is the vote `v` (kind, slot and — for notar / notar-fallback — block; the signer is the
+    node itself: Votor signs with its own key) -/
+def outMatches (o : Votor.Out) (v : Pool.Vote) : Bool :=
+  match o, v.kind with
+  | .notar s h _ _, .notar => v.slot == s && v.hash == h
+  | .skip s, .skip => v.slot == s
+  | .final s, .final => v.slot == s
+  | .notarFallback s h, .nf => v.slot == s && v.hash == h
+  | .skipFallback s, .sf => v.slot == s
+  | _, _ => false
+
+/-- what the node broadcasts in one step (`All2All::broadcast` calls of Votor, and timer requests) -/
+def nodeOuts (n : Node) : NodeOp → List Votor.Out
+  | .recvVote _ | .recvCert _ | .poolBlock _ _ => []
+  | .pump => (pump n).2
+  | .votorBlock s b => (votorStep n (.block s b)).2
+  | .firstShred s => (votorStep n (.firstShred s)).2
+  | .invalidBlock s => (votorStep n (.invalidBlock s)).2
+  | .timeout s => (votorStep n (.timeout s)).2
+  | .timeoutCrashed s => (votorStep n (.timeoutCrashed s)).2
+
+/-- a vote signed by `own` arriving from the network is one of the broadcasts `sent` so far -/
+def ownOk (own : Nat) (sent : List Votor.Out) : NodeOp → Bool
+  | .recvVote v => v.signer != own || sent.any (fun o => outMatches o v)
+  | _ => true
+
+/-- **Unforgeability premise** ("own votes only come from the own Votor"), as a decidable predicate on the operation list
+    together with the outputs of the run: every network vote whose signer is the node's own index is a vote that the
+    node's Votor broadcast earlier in the same run (`sent` = the broadcasts before the first operation of the list). -/
+def OwnVotesFromVotor (own : Nat) : Node → List Votor.Out → List NodeOp → Bool
+  | _, _, [] => true
+  | n, sent, op :: ops => ownOk own sent op && OwnVotesFromVotor own (nodeStep n op) (sent ++ nodeOuts n op) ops
+
+/-- all broadcasts of a run, in order -/
+def nodeRunOuts : Node → List NodeOp → List Votor.Out
+  | _, [] => []
+  | n, op :: ops => nodeOuts n op ++ nodeRunOuts (nodeStep n op) ops
+
+structure FInv (e : Pool.Epoch) (sent : List Votor.Out) (n : Node) : Prop where
+  pool : Pool.OwnInv e (logOwn n.votor.log) n.pool
+  queue : ∀ ev ∈ n.queue, Pool.GoodO (logOwn n.votor.log) ev
+  hist : Votor.Hist SafeBacked n.votor.log
+  sent : ∀ o ∈ sent, .out o ∈ n.votor.log
+
+theorem FInv.init (e : Pool.Epoch) : FInv e [] ({ pool := { epoch := e } } : Node) :=
+  ⟨Pool.OwnInv.init e _, (by intro ev h; cases h), ⟨trivial, trivial⟩, (by intro o h; cases h)⟩
+
+theorem safeBacked_out (o : Votor.Out) (past : List Votor.Item) : SafeBacked (.out o) past := trivial
+
+theorem mem_newOuts {before after : Votor.V} {xs : List Votor.Item} (h : after.log = xs ++ before.log) (o : Votor.Out)
+    (ho : o ∈ newOuts before after) : .out o ∈ xs := by
+  unfold newOuts at ho
+  rw [h] at ho
+  simp only [List.length_append, Nat.add_sub_cancel, List.take_left'] at ho
+  obtain ⟨i, hi, hio⟩ := List.mem_filterMap.mp ho
+  cases i with
+  | ev x => cases hio
+  | out o' => simp only [Option.some.injEq] at hio; subst hio; exact List.mem_reverse.mp hi
+
+theorem newOuts_self (v : Votor.V) : newOuts v v = [] := by
+  unfold newOuts; simp
+
+/-- a Votor step of the node, for an event that is backed if it is a safe-to event -/
+theorem votorStep_finv (e : Pool.Epoch) (sent : List Votor.Out) (n : Node) (ve : Votor.Event)
+    (hb : SafeBacked (.ev ve) n.votor.log) (i : FInv e sent n) :
+    FInv e (sent ++ (votorStep n ve).2) (votorStep n ve).1 := by
+  unfold votorStep
+  split
+  · simp only [List.append_nil]; exact i
+  · rcases Votor.step_log n.votor ve with hs | ⟨xs, hl, hx⟩
+    · simp only [hs, newOuts_self, List.append_nil]
+      exact ⟨i.pool, i.queue, i.hist, i.sent⟩
+    · have hsub : ∀ x ∈ n.votor.log, x ∈ (Votor.step n.votor ve).log := by
+        intro x hx'; rw [hl]; simp [hx']
+      obtain ⟨m1, m2⟩ := logOwn_mono hsub
+      refine ⟨i.pool.mono m1 m2, fun ev hev => (i.queue ev hev).mono m1 m2, ?_, ?_⟩
+      · show Votor.Hist SafeBacked (Votor.step n.votor ve).log
+        rw [hl]
+        exact Votor.Hist.prepend_outs safeBacked_out xs hx ⟨hb, i.hist⟩
+      · intro o ho
+        rcases List.mem_append.mp ho with ho | ho
+        · exact hsub _ (i.sent o ho)
+        · have hl' : (Votor.step n.votor ve).log = (xs ++ [.ev ve]) ++ n.votor.log := by rw [hl]; simp
+          have := mem_newOuts hl' o ho
+          show Votor.Item.out o ∈ (Votor.step n.votor ve).log
+          rw [hl']
+          exact List.mem_append_left _ this
+
+theorem enqueue_finv (e : Pool.Epoch) (sent : List Votor.Out) (n : Node) (evs : List Pool.Event)
+    (hg : ∀ ev ∈ evs, Pool.GoodO (logOwn n.votor.log) ev) (i : FInv e sent n) : FInv e sent (enqueue n evs) := by
+  unfold enqueue
+  split
+  · exact ⟨i.pool, i.queue, i.hist, i.sent⟩
+  · refine ⟨i.pool, ?_, i.hist, i.sent⟩
+    intro ev hev
+    rcases List.mem_append.mp hev with h | h
+    · exact i.queue ev h
+    · exact hg ev (List.mem_filter.mp h).1
+
+/-- a pool operation of the node -/
+theorem poolOp_finv (e : Pool.Epoch) (sent : List Votor.Out) (n : Node) (op : Pool.PoolOp)
+    (hv : Pool.OpLogged e (logOwn n.votor.log) op) (i : FInv e sent n) :
+    FInv e sent (enqueue { n with pool := (Pool.poolStep n.pool op).1 } (Pool.poolStep n.pool op).2) :=
+  enqueue_finv e sent _ _ (Pool.poolStep_goodO e _ n.pool op i.pool hv)
+    ⟨Pool.poolStep_own e _ n.pool op i.pool hv, i.queue, i.hist, i.sent⟩
+
+theorem voteLogged_of_ownOk (e : Pool.Epoch) (sent : List Votor.Out) (L : List Votor.Item) (v : Pool.Vote)
+    (hs : ∀ o ∈ sent, Votor.Item.out o ∈ L) (hok : ownOk e.own sent (.recvVote v) = true) :
+    Pool.VoteLogged e (logOwn L) v := by
+  intro hsig
+  simp only [ownOk, hsig, bne_self_eq_false, Bool.false_or, List.any_eq_true] at hok
+  obtain ⟨o, ho, hm⟩ := hok
+  have hoL := hs o ho
+  constructor
+  · intro hk
+    unfold outMatches at hm
+    rw [hk] at hm
+    cases o <;> simp at hm
+    subst hm
+    exact hoL
+  · intro hk
+    unfold outMatches at hm
+    rw [hk] at hm
+    cases o <;> simp at hm
+    obtain ⟨h1, h2⟩ := hm
+    subst h1; subst h2
+    exact ⟨_, _, hoL⟩
+
+theorem safeBacked_of_good {L : List Votor.Item} {qe : Pool.Event} {ve : Votor.Event} (hg : Pool.GoodO (logOwn L) qe)
+    (hv : toVotor qe = some ve) : SafeBacked (.ev ve) L := by
+  cases qe with
+  | cert c => simp only [toVotor, Option.some.injEq] at hv; subst hv; trivial
+  | s2n s h => simp only [toVotor, Option.some.injEq] at hv; subst hv; exact hg
+  | s2s s => simp only [toVotor, Option.some.injEq] at hv; subst hv; exact hg
+  | parentReady s ps ph => simp only [toVotor, Option.some.injEq] at hv; subst hv; trivial
+  | standstill s cs vs => simp only [toVotor, Option.some.injEq] at hv; subst hv; trivial
+  | repair a b => simp [toVotor] at hv
+  | panic => simp [toVotor] at hv
+
+/-- **One step of the node keeps the invariant** under the unforgeability premise for that step. -/
+theorem nodeStep_finv (e : Pool.Epoch) (sent : List Votor.Out) (n : Node) (op : NodeOp) (i : FInv e sent n)
+    (hok : ownOk e.own sent op = true) : FInv e (sent ++ nodeOuts n op) (nodeStep n op) := by
+  cases op with
+  | recvVote v =>
+    simp only [nodeStep, nodeOuts, List.append_nil, recvVote]
+    split
+    · exact i
+    · exact poolOp_finv e sent n (.vote v) (voteLogged_of_ownOk e sent _ v i.sent hok) i
+  | recvCert c =>
+    simp only [nodeStep, nodeOuts, List.append_nil, recvCert]
+    split
+    · exact i
+    · exact poolOp_finv e sent n (.cert c) trivial i
+  | poolBlock b par =>
+    simp only [nodeStep, nodeOuts, List.append_nil, poolBlock]
+    split
+    · exact i
+    · exact poolOp_finv e sent n (.block b par) trivial i
+  | pump =>
+    simp only [nodeStep, nodeOuts, pump]
+    split
+    · simp only [List.append_nil]; exact i
+    · rename_i qe rest hq
+      have hrest : ∀ ev ∈ rest, Pool.GoodO (logOwn n.votor.log) ev :=
+        fun ev hev => i.queue ev (by rw [hq]; exact List.mem_cons_of_mem _ hev)
+      have i' : FInv e sent { n with queue := rest } := ⟨i.pool, hrest, i.hist, i.sent⟩
+      split
+      · rename_i ve hve
+        exact votorStep_finv e sent { n with queue := rest } ve
+          (safeBacked_of_good (i.queue qe (by rw [hq]; simp)) hve) i'
+      · simp only [List.append_nil]; exact i'
+  | votorBlock s b => exact votorStep_finv e sent n _ trivial i
+  | firstShred s => exact votorStep_finv e sent n _ trivial i
+  | invalidBlock s => exact votorStep_finv e sent n _ trivial i
+  | timeout s => exact votorStep_finv e sent n _ trivial i
+  | timeoutCrashed s => exact votorStep_finv e sent n _ trivial i
+
+/-- **Every run** -/
+theorem nodeRun_finv (e : Pool.Epoch) (ops : List NodeOp) (sent : List Votor.Out) (n : Node) (i : FInv e sent n)
+    (hok : OwnVotesFromVotor e.own n sent ops = true) : FInv e (sent ++ nodeRunOuts n ops) (nodeRun n ops) := by
+  induction ops generalizing sent n with
+  | nil => simp only [nodeRunOuts, List.append_nil, nodeRun]; exact i
+  | cons op ops ih =>
+    simp only [OwnVotesFromVotor, Bool.and_eq_true] at hok
+    simp only [nodeRunOuts, nodeRun, ← List.append_assoc]
+    exact ih _ _ (nodeStep_finv e sent n op i hok.1) hok.2
+
+end AgModel.NodePanic
